@@ -135,6 +135,18 @@ func cfgFor(profile string, i int) map[string]interface{} {
 		return map[string]interface{}{"vstorThreshold": 1000000}
 	}
 	if profile == "reward" {
+		if i%12 >= 6 {
+			// further parameter sets (larger batches only): small and odd rewards, baselines above and below what gets pledged,
+			// tiny and huge yields, the shortest halving / adjustment periods the parameters accept
+			k := i / 6
+			return map[string]interface{}{
+				"blockReward":   []int64{1, 7, 840, 2520, 360}[(i+k)%5],
+				"baseline":      []int64{0, 5, 1000}[(i+2*k)%3],
+				"apy":           []string{"0.5", "600", "0.001", "30"}[(i+3*k)%4],
+				"halvingPeriod": []int64{12, 20, 32000000}[(i+k)%3],
+				"adjustPeriod":  []int64{11, 2000}[i%2],
+			}
+		}
 		switch i % 6 {
 		case 3:
 			// 30 000 coins before the first halving point of the subsidy (TOTAL_REWARD / 2): the age goes 0 -> 1 in the trace
